@@ -303,7 +303,26 @@ func checkC02(c *Check) {
 		ok := false
 		for _, u := range p.FieldUses(p.Field("flamego", "context", "params")) {
 			if u.Kind == "store" && u.Fn == nc {
-				ok = vParam(nc, 2)(u.Instr.(*ssa.Store).Val)
+				val := u.Instr.(*ssa.Store).Val
+				ok = vParam(nc, 2)(val)
+				if !ok {
+					// an empty map in place of a nil one (the not-found chain): φ(params, fresh empty) with the fresh
+					// map only on the params == nil edge
+					if ph, isPhi := strip(val).(*ssa.Phi); isPhi {
+						isNil := edgesWhere(nc, cCmp(token.EQL, vParam(nc, 2), vNil), true)
+						good, sawParam := len(isNil) > 0, false
+						for i, e := range ph.Edges {
+							switch {
+							case vParam(nc, 2)(e):
+								sawParam = true
+							case isFreshEmptyMap(e) && edgeGuarded(nc, isNil, ph.Block().Preds[i], ph.Block()):
+							default:
+								good = false
+							}
+						}
+						ok = good && sawParam
+					}
+				}
 			} else if u.Kind == "store" {
 				c.Bad(p.FuncKey(u.Fn)+":params.store", p.Pos(u.Instr.Pos()), "the context's params are replaced outside newContext")
 			}
@@ -754,4 +773,24 @@ func vConstText(s string) VM {
 		}
 		return false
 	}
+}
+
+// isFreshEmptyMap: make(map…) with nothing stored into it in this function.
+func isFreshEmptyMap(v ssa.Value) bool {
+	v = strip(v)
+	mm, ok := v.(*ssa.MakeMap)
+	if !ok {
+		if ct, isCT := v.(*ssa.ChangeType); isCT {
+			mm, ok = ct.X.(*ssa.MakeMap)
+		}
+		if !ok {
+			return false
+		}
+	}
+	for _, r := range referrers(mm) {
+		if _, isMU := r.(*ssa.MapUpdate); isMU {
+			return false
+		}
+	}
+	return true
 }
